@@ -156,7 +156,7 @@ def dispatch (st : State) (line : String) : State × String :=
       match args with
       | ["new", ttl] =>
         match ttl.toNat? with
-        | some t => ({ st with model := init t }, showObs "ok" (observe (init t) .advanced))
+        | some t => ({ st with model := init (effectiveTTL t) }, showObs "ok" (observe (init (effectiveTTL t)) .advanced))
         | none => (st, "bad-op")
       | ["snap"] => (st, showObs "snap" (observe st.model .advanced))
       | _ =>
@@ -177,7 +177,7 @@ def dispatch (st : State) (line : String) : State × String :=
           | ["new", ttl] =>
             match ttl.toNat? with
             | some t =>
-              let st' := { st with ttl := t, hist := [], before := Ipfix.C10.initObs }
+              let st' := { st with ttl := Ipfix.Timers.effectiveTTL t, hist := [], before := Ipfix.C10.initObs }
               (st', if sameState after Ipfix.C10.initObs then "holds" else "fails fresh-collector-not-empty")
             | none => (st, "bad-op")
           | ["snap"] => (st, if sameState after st.before then "holds" else "fails snapshot-differs-from-last-observation")
